@@ -290,9 +290,101 @@ DEFAULT_OPS = [
 ]
 
 
+_IDENT_RE = re.compile(r'^[A-Za-z_][A-Za-z0-9_]*$')
+_BINDERS = None
+BINDERS_SEEN = {}   # (group, unit) -> binder list of the text read in this run (gen_baseline writes them out)
+
+
+def binder_list(s):
+    """Names introduced by `let PATTERN [: T] =`, `if let` / `while let PATTERN =` and `for PATTERN in`, in
+    source order: the lower-case identifiers of the pattern (constructors, paths, field names before a
+    `:` inside a struct pattern and `mut` / `ref` are not binders). Closure parameters and match arms
+    are not collected."""
+    toks = rustlex.tokens(s)
+    out = []
+    KW = {'mut', 'ref', 'box', 'true', 'false', 'self', 'Self', 'in', 'if', 'else', 'match'}
+    n = len(toks)
+    i = 0
+    while i < n:
+        t = toks[i][0]
+        if t in ('let', 'for'):
+            stop = '=' if t == 'let' else 'in'
+            j = i + 1
+            depth = 0
+            while j < n:
+                u = toks[j][0]
+                if u in ('(', '[', '{'):
+                    depth += 1
+                elif u in (')', ']', '}'):
+                    if depth == 0:
+                        break
+                    depth -= 1
+                elif depth == 0 and (u == stop or u == ';' or (t == 'let' and u == ':')):
+                    break
+                elif _IDENT_RE.match(u) and u not in KW and (u[0].islower() or u[0] == '_') and u != '_':
+                    prev = toks[j - 1][0]
+                    nxt = toks[j + 1][0] if j + 1 < n else ''
+                    if prev not in ('.', '::') and nxt not in ('(', '::', '{', '!') and not (nxt == ':' and depth > 0 and toks[j - 1][0] in ('{', ',')):
+                        out.append(u)
+                j += 1
+            i = j
+            continue
+        i += 1
+    return out
+
+
+def normalise_locals(unit, s, log):
+    """Rule E21 (automatic form): the contracts name locals of the real functions. contracts/binders.json
+    holds, per unit, the names the unchanged tree gives to its `let` / `for` binders, in order. If the
+    current text has the same NUMBER of binders but other names at some positions, those locals are
+    alpha-renamed back (a consistent, injective, capture-free renaming of identifier tokens: meaning-
+    preserving). Anything else (different count, inconsistent mapping, capture) leaves the text alone."""
+    global _BINDERS
+    cur = binder_list(s)
+    BINDERS_SEEN[(getattr(unit, 'group', None), unit.id)] = cur
+    if os.environ.get('VERIF_NO_NORMALISE') == '1':
+        return s
+    if _BINDERS is None:
+        try:
+            with open(os.path.join(VERIF, 'contracts', 'binders.json')) as f:
+                _BINDERS = json.load(f)
+        except Exception:
+            _BINDERS = {}
+    base = (_BINDERS.get(getattr(unit, 'group', None)) or {}).get(unit.id)
+    if not base or len(base) != len(cur) or base == cur:
+        return s
+    mp = {}
+    for c, b in zip(cur, base):
+        if mp.setdefault(c, b) != b:
+            return s                      # one current name for two baseline names: not a pure renaming
+    mp = {c: b for c, b in mp.items() if c != b}
+    if not mp:
+        return s
+    full = {}
+    for c, b in zip(cur, base):
+        full[c] = b
+    if len(set(full.values())) != len(full):
+        return s                          # not injective
+    toks = rustlex.tokens(s)
+    idents = set(t[0] for t in toks if _IDENT_RE.match(t[0]))
+    for c, b in mp.items():
+        if b in idents and b not in full:  # the target name is in use for something that is not renamed away
+            return s
+    for k in range(len(toks) - 1, -1, -1):
+        t = toks[k]
+        if t[0] in mp:
+            prev = toks[k - 1][0] if k > 0 else ''
+            nxt = toks[k + 1][0] if k + 1 < len(toks) else ''
+            if prev in ('.', '::') or nxt == '::':
+                continue                  # a field / method / path segment of the same name is not the local
+            s = s[:t[1]] + mp[t[0]] + s[t[2]:]
+    log.append({'unit': unit.id, 'rule': 'E21', 'what': 'locals alpha-renamed to the names the contracts use: %s' % ', '.join('%s->%s' % kv for kv in sorted(mp.items()))})
+    return s
+
+
 def apply_ops(unit, fn_text, log):
     """Apply the unit's edit list to the function text; return new text."""
-    s = fn_text
+    s = normalise_locals(unit, fn_text, log)
     for kind, a, payload in list(unit.ops) + (DEFAULT_OPS if unit.args.get('defaults', '1') == '1' else []):
         payload_txt = payload.rstrip('\n')
         if kind == 'macro':
@@ -996,6 +1088,7 @@ def expand(group_path):
         elif word == 'unit':
             a = parse_kv(rest)
             unit = Unit(a)
+            unit.group = os.path.basename(group_path)[:-3]
             i += 1
             contract = ''
             sig_override = None
@@ -1092,6 +1185,11 @@ def expand(group_path):
                     'repo:' + a['file'] + '::' + fnspec + ' [closure body]', 'generated:' + unit.id, n=1))
                 continue
             if 'slice_from' in a:
+                # locals of the WHOLE function are normalised first: the slice anchors and the wrapper's
+                # parameters (the slice's free variables) use the names of the unchanged tree
+                _fu = Unit({'id': unit.id + '#fn'})
+                _fu.group = unit.group
+                body = normalise_locals(_fu, body, log)
                 # A slice: the statements from anchor `slice_from` through the end of the block
                 # statement that starts at anchor `slice_through` (a loop or an `if`), verified as a
                 # function of its own whose parameters are the slice's free variables (the wrapper
